@@ -16,6 +16,13 @@ NA = {
  "C19": "quantifies over bytecode-level thread interleavings; neither pathsym nor CrossHair can make the CPython scheduler symbolic and no Python-bytecode-to-SMT front end exists in the sandbox; a hand model of the interleavings would not be the real code (DESIGN.md 6/C19)",
 }
 
+GENERIC = dict(category="model_checking",
+   text="Bounded symbolic execution (pathsym + z3) of the real selfies code: inputs, constraint-table entries and flags are solver variables over the alphabets and ranges listed in the evidence; every path's assertion is an unsat query; models are replayed on the pristine package before being reported.",
+   design_ref="6", note="Trusted: z3, CPython, the pathsym proxies and AST rewrites, the independent oracles in vf/; bounds as listed in the evidence file.",
+   technique="symbolic execution of the real Python code with z3 (bounded), counterexample replay")
+for p in props:
+    if p not in CLAIMED and p not in NA and os.path.exists(os.path.join(HERE, "vf", "props", p.lower() + ".py")):
+        CLAIMED[p] = dict(GENERIC, design_ref="6/" + p)
 checks = []
 for p in props:
     if p in CLAIMED:
